@@ -92,7 +92,7 @@ type c11Case struct {
 }
 
 func runC11(c *Ctx) {
-	cfgs := []Cfg{{}, {Cache: true}, {Compress: true}, {Async: 1}, {Ext: ".obj"}, {Lower: true}}
+	cfgs := []Cfg{{}, {Cache: true}, {Compress: true}, {Async: 1}, {Ext: ".v1.obj"}, {Lower: true}}
 	bases := [][]Op{
 		{},
 		{{Op: "ins", V: 1, K: 0}},
@@ -102,7 +102,7 @@ func runC11(c *Ctx) {
 		{{Op: "ins", V: 1, K: 0}, {Op: "ins", V: 2, K: 2}, {Op: "del", Slot: 0}},
 	}
 	if c.Tier == "thorough" {
-		cfgs = append(cfgs, Cfg{Index: 2, Compress: true, Ext: ".obj"}, Cfg{Index: 1, Lower: true}, Cfg{Index: 3})
+		cfgs = append(cfgs, Cfg{Index: 2, Compress: true, Ext: ".v1.obj"}, Cfg{Index: 1, Lower: true}, Cfg{Index: 3})
 		bases = append(bases, enumPaths([]Op{{Op: "ins", V: 0, K: 0}, {Op: "ins", V: 1, K: 2}, {Op: "upd", Slot: 0, V: 2, K: 3}, {Op: "del", Slot: 1}, {Op: "reopen"}}, 3)...)
 	}
 	item := 0
